@@ -113,7 +113,8 @@ def _kani_env():
 class _Lock:
     def __enter__(self):
         os.makedirs(CACHE, exist_ok=True)
-        self.f = open(os.path.join(CACHE, "kani.lock"), "w")
+        # one lock per compiled tree: runs against scratch copies (seeded changes) have their own target dir and may run side by side
+        self.f = open(os.path.join(CACHE, f"kani-{repo_tag()}.lock"), "w")
         fcntl.flock(self.f, fcntl.LOCK_EX)
         return self
 
@@ -247,6 +248,7 @@ def run_batch(harnesses, jobs=None, extra=None, timeout=None, use_cache=True):
                 res.update(r); raws.append(raw); cmds.append(cmd); wall += w
             return res, "\n".join(raws), " ; ".join(cmds), wall
         jobs = classes[0] if classes else 16
+    jobs = max(1, min(jobs, int(os.environ.get("VERIF_KANI_MAX_JOBS", jobs))))
     per_harness = PER_HARNESS_TIMEOUT_S * (2 if any(h.tier == "thorough" for h in harnesses) else 1)
     cmd = ["cargo", "kani"] + KANI_FLAGS + ["-Z", "unstable-options", "--harness-timeout", f"{per_harness}s",
                                             "-j", str(jobs), "--output-format", "terse", "--exact"]
